@@ -113,5 +113,63 @@ def run(ctx, R):
             if len(R.samples) < 8:
                 R.sample({"family": k, "twin": v, "callees": sorted(c)[:6], "p": sorted(p), "counts": i})
     R.floor("twin comparisons", n_cmp, 300)
+
+    # ---- every arm notices its builtin's failure before it steps ------------------------------------------------
+    # a builtin that can set the fail flag (failed unification, thrown error) must be followed by a step that is
+    # conditional on the flag (step_or_fail!, an explicit test, or a backtrack): otherwise the failure is noticed one
+    # instruction late, after an enclosing if-then-else may already have cut.
+    STEP_EXCEPTIONS = {
+        "RunVerifyAttr": "runs the nested attribute-verification loop; its exit status, not the fail flag, decides the continuation",
+    }
+    memo = {}
+
+    def may_fail(fn, depth=0):
+        if fn in memo:
+            return memo[fn]
+        if fn not in F.items or depth > 2:
+            return False
+        memo[fn] = False
+        try:
+            h = F.hir(fn)
+        except AnchorLost:
+            return False
+        res = False
+        for n in walk(h["body"]):
+            if n["k"] == "Assign" and n["lhs"]["k"] == "Field" and n["lhs"]["name"] == "fail":
+                res = True
+            if n["k"] in ("Call", "MethodCall"):
+                r = n.get("resolved") or n.get("callee") or ""
+                if re.search(r"::throw_(resource_error|exception|interrupt_exception)$|MachineState>?::unify(_atom|_fixnum|_f64|_big_int|_rational|_char)?$", r):
+                    res = True
+        if not res:
+            for n in walk(h["body"]):
+                if n["k"] in ("Call", "MethodCall"):
+                    r = n.get("resolved") or n.get("callee") or ""
+                    if r in F.items and r != fn and may_fail(r, depth + 1):
+                        res = True
+                        break
+        memo[fn] = res
+        return res
+
+    n_unc = 0
+    for v, a in sorted(arms.items()):
+        arm = a[0]
+        callees = [n.get("resolved") or n.get("callee") for n in walk(arm["body"]) if n["k"] in ("Call", "MethodCall") and "callee" in n]
+        local = [c for c in callees if c in F.items and re.search(r"impl machine::Machine>::|MachineState>::|machine::Machine::", c)]
+        looks_at_fail = any(x["k"] == "Field" and x["name"] == "fail" for x in walk(arm["body"])) or any(re.search(r"::backtrack$", c or "") for c in callees)
+        if not local or looks_at_fail or repo.arm_effect(arm["body"]) != "advance":
+            continue
+        failing = [short(c) for c in local if may_fail(c)]
+        if not failing:
+            continue
+        n_unc += 1
+        where = "%s:%s dispatch_loop arm %s" % (F.items[dl]["file"], arm["ln"], v)
+        if v in STEP_EXCEPTIONS:
+            R.ob("C07:step-after-failing-builtin:%s:exception" % v, True, "listed: " + STEP_EXCEPTIONS[v], where)
+        else:
+            R.ob("C07:step-after-failing-builtin:%s" % v, False,
+                 "%s steps to the next instruction unconditionally although %s can set the fail flag: the failure is noticed one instruction late "
+                 "(e.g. after an enclosing `->` has cut), so neither branch of ( G -> A ; B ) runs" % (v, failing), where)
+    R.notes.append("arms stepping unconditionally after a builtin that may fail: %d (all must be listed exceptions)" % n_unc)
     n = orframe.check(F, R, "C07")
     R.floor("or-frame obligations", n, 60)
